@@ -21,58 +21,48 @@ theorem passthrough_good {j : Json} (h : wfJson j = true) : PyGood j (PyVal.ofJs
 
 /-- the induction hypothesis at fuel `n` -/
 def PyIH (n : Nat) (ss : Schemas) : Prop :=
-  ∀ t ctx j, pyDen n ss t ctx j = true → ∃ v, pyFromJson n ss t ctx j = .ok v ∧ PyGood j v
+  ∀ t j, pyDen n ss t j = true → ∃ v, pyFromJson n ss t j = .ok v ∧ PyGood j v
 
 /-! ### arrays -/
 
 theorem py_list_case {n : Nat} {ss : Schemas} (ih : PyIH n ss) (e : Ty) (xs : List Json)
-    (h : xs.all (pyDen n ss e none) = true) :
-    ∃ vs, mapRes (pyFromJson n ss e none) xs = .ok vs ∧
+    (h : xs.all (pyDen n ss e) = true) :
+    ∃ vs, mapRes (pyFromJson n ss e) xs = .ok vs ∧
       Json.subList (pyEncList vs) xs = true ∧ Json.subList xs (pyEncList vs) = true := by
   induction xs with
   | nil => exact ⟨[], rfl, rfl, rfl⟩
   | cons x xs ihx =>
     simp only [List.all_cons, Bool.and_eq_true] at h
-    obtain ⟨v, hv, g⟩ := ih e none x h.1
+    obtain ⟨v, hv, g⟩ := ih e x h.1
     obtain ⟨vs, hvs, s1, s2⟩ := ihx h.2
     refine ⟨v :: vs, ?_, ?_, ?_⟩
     · simp [mapRes, hv, hvs, DRes.bind]
     · simp [pyEncList, Json.subList, g.enc_sub, s1]
     · simp [pyEncList, Json.subList, g.sub_enc, s2]
 
-/-! ### maps (not nested directly in a map: the subscript is the entry itself) -/
-
-theorem subscripts_one {k : String} {v : Json} {kvs : List (String × Json)}
-    (nd : keysNodup kvs = true) (h : (k, v) ∈ kvs) : subscripts k 1 (.obj kvs) = .ok v := by
-  simp [subscripts, lookup_of_mem_nodup nd h]
+/-! ### maps (entry-wise at every nesting level) -/
 
 theorem py_map_case {n : Nat} {ss : Schemas} (ih : PyIH n ss) (vt : Ty) (kvs : List (String × Json))
     (nd : keysNodup kvs = true)
-    (h : kvs.all (fun kv => pyDen n ss vt (some (.obj kvs, 1)) kv.2) = true) :
-    ∃ l, mapRes (fun (kv : String × Json) =>
-          (subscripts kv.1 (0 + 1) (.obj kvs)).bind fun z =>
-            (pyFromJson n ss vt (some (.obj kvs, 0 + 1)) z).map fun x => (kv.1, x)) kvs = .ok l ∧
+    (h : kvs.all (fun kv => pyDen n ss vt kv.2) = true) :
+    ∃ l, mapRes (fun (kv : String × Json) => (pyFromJson n ss vt kv.2).map fun x => (kv.1, x)) kvs = .ok l ∧
       Json.subMembers (pyEncDict l) kvs = true ∧ Json.subMembers kvs (pyEncDict l) = true := by
-  have step : ∀ ks : List (String × Json), (∀ kv ∈ ks, kv ∈ kvs) →
-      ∃ l, mapRes (fun (kv : String × Json) =>
-          (subscripts kv.1 (0 + 1) (.obj kvs)).bind fun z =>
-            (pyFromJson n ss vt (some (.obj kvs, 0 + 1)) z).map fun x => (kv.1, x)) ks = .ok l ∧
+  have step : ∀ ks : List (String × Json), ks.all (fun kv => pyDen n ss vt kv.2) = true →
+      ∃ l, mapRes (fun (kv : String × Json) => (pyFromJson n ss vt kv.2).map fun x => (kv.1, x)) ks = .ok l ∧
         All2 (fun (kv : String × Json) (pv : String × PyVal) =>
           pv.1 = kv.1 ∧ Json.sub (pyToJson pv.2) kv.2 = true ∧ Json.sub kv.2 (pyToJson pv.2) = true) ks l := by
     intro ks
     induction ks with
     | nil => intro _; exact ⟨[], rfl, .nil⟩
     | cons kv t iht =>
-      intro hmem
-      have hkv : kv ∈ kvs := hmem kv (by simp)
-      have hd := (List.all_eq_true.1 h) kv hkv
-      obtain ⟨v, hv, g⟩ := ih vt _ kv.2 hd
-      obtain ⟨l, hl, ha⟩ := iht (fun kv' hkv' => hmem kv' (by simp [hkv']))
-      have hsub : subscripts kv.1 (0 + 1) (.obj kvs) = .ok kv.2 := subscripts_one nd (by simpa using hkv)
+      intro hall
+      simp only [List.all_cons, Bool.and_eq_true] at hall
+      obtain ⟨v, hv, g⟩ := ih vt kv.2 hall.1
+      obtain ⟨l, hl, ha⟩ := iht hall.2
       refine ⟨(kv.1, v) :: l, ?_, .cons ⟨rfl, g.enc_sub, g.sub_enc⟩ ha⟩
-      simp only [mapRes, hsub, DRes.bind, hv, DRes.map] at hl ⊢
+      simp only [mapRes, hv, DRes.map, DRes.bind] at hl ⊢
       rw [hl]
-  obtain ⟨l, hl, ha⟩ := step kvs (fun _ h => h)
+  obtain ⟨l, hl, ha⟩ := step kvs h
   have hkeys : l.map (·.1) = kvs.map (·.1) := ha.map_eq (·.1) (·.1) (fun _ _ h => h.1)
   have ndl : (l.map (·.1)).Nodup := by rw [hkeys]; exact (keysNodup_iff kvs).1 nd
   refine ⟨l, hl, ?_, ?_⟩
@@ -103,8 +93,8 @@ structure FieldGood (members : List (String × Json)) (f : Field) (pv : PyVal) :
 
 theorem py_field_step {n : Nat} {ss : Schemas} (ih : PyIH n ss) (dfl : Ty → DRes PyVal)
     (members : List (String × Json)) (f : Field)
-    (h : pyFieldOK (fun t' => pyDen n ss t' none) members f = true) :
-    ∃ pv, pyFieldWith (fun t' => pyFromJson n ss t' none) dfl members f = .ok (f.name, f.required, pv) ∧
+    (h : pyFieldOK (pyDen n ss) members f = true) :
+    ∃ pv, pyFieldWith (pyFromJson n ss) dfl members f = .ok (f.name, f.required, pv) ∧
       FieldGood members f pv := by
   unfold pyFieldOK at h
   simp only [Bool.and_eq_true, Bool.not_eq_true'] at h
@@ -145,7 +135,7 @@ theorem py_field_step {n : Nat} {ss : Schemas} (ih : PyIH n ss) (dfl : Ty → DR
     | some v =>
       simp only [hl, Bool.and_eq_true, Bool.or_eq_true, Bool.not_eq_true'] at h
       obtain ⟨hd, hcond⟩ := h
-      obtain ⟨pv, hpv, g⟩ := ih f.ty none v hd
+      obtain ⟨pv, hpv, g⟩ := ih f.ty v hd
       refine ⟨pv, ?_, ⟨?_, ?_⟩⟩
       · simp only [hconst, hpv, DRes.bind, hcv, hslot, Bool.false_eq_true, if_false]
         cases hr : isRefLike f.ty with
@@ -164,14 +154,14 @@ theorem py_fields_case {n : Nat} {ss : Schemas} (ih : PyIH n ss) (dfl : Ty → D
     (fields : List Field) (members : List (String × Json))
     (ndm : keysNodup members = true) (ndf : namesNodup (fields.map (·.name)) = true)
     (hsub : members.all (fun kv => (fields.map (·.name)).contains kv.1) = true)
-    (hden : fields.all (pyFieldOK (fun t' => pyDen n ss t' none) members) = true) :
-    ∃ fl, mapRes (pyFieldWith (fun t' => pyFromJson n ss t' none) dfl members) fields = .ok fl ∧
+    (hden : fields.all (pyFieldOK (pyDen n ss) members) = true) :
+    ∃ fl, mapRes (pyFieldWith (pyFromJson n ss) dfl members) fields = .ok fl ∧
       Json.subMembers (pyEncReq fl ++ pyEncOpt fl) members = true ∧
       Json.subMembers members (pyEncReq fl ++ pyEncOpt fl) = true := by
   have hsub' : ∀ kv ∈ members, (fields.map (·.name)).contains kv.1 = true := by
     simpa [List.all_eq_true] using hsub
   have step : ∀ fs : List Field, (∀ f ∈ fs, f ∈ fields) →
-      ∃ fl, mapRes (pyFieldWith (fun t' => pyFromJson n ss t' none) dfl members) fs = .ok fl ∧
+      ∃ fl, mapRes (pyFieldWith (pyFromJson n ss) dfl members) fs = .ok fl ∧
         All2 (fun (f : Field) (e : String × Bool × PyVal) =>
           e.1 = f.name ∧ e.2.1 = f.required ∧ FieldGood members f e.2.2) fs fl := by
     intro fs
@@ -226,9 +216,9 @@ theorem py_fields_case {n : Nat} {ss : Schemas} (ih : PyIH n ss) (dfl : Ty → D
 theorem py_roundtrip_core (ss : Schemas) : ∀ n, PyIH n ss := by
   intro n
   induction n with
-  | zero => intro t ctx j h; simp [pyDen] at h
+  | zero => intro t j h; simp [pyDen] at h
   | succ n ih =>
-    intro t ctx j h
+    intro t j h
     cases t with
     | scalar kind val cs m =>
       simp only [pyDen] at h
@@ -260,17 +250,14 @@ theorem py_roundtrip_core (ss : Schemas) : ∀ n, PyIH n ss := by
         simp only [hs, if_true] at h ⊢
         exact ⟨_, rfl, passthrough_good h⟩
       | false =>
-        simp only [hs, Bool.false_eq_true, if_false, Bool.and_eq_true] at h ⊢
-        obtain ⟨hctx, h⟩ := h
-        have hc : ctx = none := by cases ctx <;> simp_all
-        subst hc
+        simp only [hs, Bool.false_eq_true, if_false] at h ⊢
         cases j with
         | obj kvs =>
           simp only [Bool.and_eq_true] at h
           obtain ⟨l, hl, s1, s2⟩ := py_map_case ih vt kvs h.1 h.2
           refine ⟨.dict l, ?_, ⟨by simpa [pyToJson, Json.sub] using s1, by simpa [pyToJson, Json.sub] using s2,
             fun _ => rfl⟩⟩
-          simp only [Option.getD_none]
+          dsimp only
           rw [hl]; rfl
         | null | bool _ | num _ | str _ | arr _ => simp at h
     | disj bs info m =>
@@ -300,7 +287,7 @@ theorem py_roundtrip_core (ss : Schemas) : ∀ n, PyIH n ss := by
                 | none => simp [hb] at h
                 | some p =>
                   simp only [hb] at h
-                  obtain ⟨v, hv, g⟩ := ih _ _ _ h
+                  obtain ⟨v, hv, g⟩ := ih _ _ h
                   refine ⟨v, ?_, g⟩
                   have hne : (tag == catchAll) = false := by simpa using hcatch
                   simp only [hne, Bool.false_eq_true, if_false, hm, Option.map_some, hb]
@@ -330,7 +317,7 @@ theorem py_roundtrip_core (ss : Schemas) : ∀ n, PyIH n ss := by
         | scalar _ _ _ _ | ref _ _ _ | cref _ _ _ _ | array _ _ | map _ _ _ | enum _ _ | disj _ _ _
         | inter _ _ | slot _ _ | bad _ _ =>
           simp only [hty] at h ⊢
-          exact ih _ _ _ h
+          exact ih _ _ h
     | cref _ _ _ _ => simp [pyDen] at h
     | struct _ _ _ _ => simp [pyDen] at h
     | inter _ _ => simp [pyDen] at h
